@@ -191,6 +191,9 @@ def cases(tier, seed):
         out.append(dict(base, sizes=[200, 3, 0, 77], concurrent=conc, encrypted=True))
     # non-ASCII names, nested directories
     out.append(dict(base, sizes=[12, 40], names=['naïve 文.bin', 'sp ace.tmp'], nested=True))
+    # names that are NOT valid UTF-8 (Latin-1 / Shift-JIS bytes: Python hands them out with surrogate escapes), plain and encrypted
+    for enc in (False, True):
+        out.append(dict(base, sizes=[9, 33, 5], names=[os.fsdecode(b'caf\xe9.txt'), os.fsdecode(b'\x83\x65\x83\x58\x83\x67'), 'ascii.bin'], encrypted=enc))
     if tier == 'thorough':
         for _ in range(600):
             n = rnd.randint(1, 4)
